@@ -53,6 +53,15 @@ pub struct Deserializer<'de> {
 }
 
 impl<'de> Deserializer<'de> {
+    /// An integer outside the i32 range is encoded as SMALL_BIG_EXT and decoded as
+    /// `OwnedTerm::BigInt`, so a big integer that fits in an i64 is an ordinary integer here.
+    fn wire_integer(&self) -> Result<i64> {
+        self.term.as_integer().ok_or_else(|| Error::TypeMismatch {
+            expected: "integer that fits in 64 bits".into(),
+            found: format!("{:?}", self.term),
+        })
+    }
+
     fn expect_atom(&self, expected: &str) -> Result<&Atom> {
         match self.term {
             OwnedTerm::Atom(atom) => {
@@ -122,9 +131,12 @@ impl<'de> SerdeDeserializer<'de> for &mut Deserializer<'de> {
 
     fn deserialize_i8<V: Visitor<'de>>(self, visitor: V) -> Result<V::Value> {
         match self.term {
-            OwnedTerm::Integer(i) => i8::try_from(*i)
-                .map_err(|_| Error::InvalidValue(format!("integer {} out of range for i8", i)))
-                .and_then(|v| visitor.visit_i8(v)),
+            OwnedTerm::Integer(_) | OwnedTerm::BigInt(_) => {
+                let i = self.wire_integer()?;
+                i8::try_from(i)
+                    .map_err(|_| Error::InvalidValue(format!("integer {} out of range for i8", i)))
+                    .and_then(|v| visitor.visit_i8(v))
+            }
             _ => Err(Error::TypeMismatch {
                 expected: "integer".into(),
                 found: format!("{:?}", self.term),
@@ -134,9 +146,12 @@ impl<'de> SerdeDeserializer<'de> for &mut Deserializer<'de> {
 
     fn deserialize_i16<V: Visitor<'de>>(self, visitor: V) -> Result<V::Value> {
         match self.term {
-            OwnedTerm::Integer(i) => i16::try_from(*i)
-                .map_err(|_| Error::InvalidValue(format!("integer {} out of range for i16", i)))
-                .and_then(|v| visitor.visit_i16(v)),
+            OwnedTerm::Integer(_) | OwnedTerm::BigInt(_) => {
+                let i = self.wire_integer()?;
+                i16::try_from(i)
+                    .map_err(|_| Error::InvalidValue(format!("integer {} out of range for i16", i)))
+                    .and_then(|v| visitor.visit_i16(v))
+            }
             _ => Err(Error::TypeMismatch {
                 expected: "integer".into(),
                 found: format!("{:?}", self.term),
@@ -146,9 +161,12 @@ impl<'de> SerdeDeserializer<'de> for &mut Deserializer<'de> {
 
     fn deserialize_i32<V: Visitor<'de>>(self, visitor: V) -> Result<V::Value> {
         match self.term {
-            OwnedTerm::Integer(i) => i32::try_from(*i)
-                .map_err(|_| Error::InvalidValue(format!("integer {} out of range for i32", i)))
-                .and_then(|v| visitor.visit_i32(v)),
+            OwnedTerm::Integer(_) | OwnedTerm::BigInt(_) => {
+                let i = self.wire_integer()?;
+                i32::try_from(i)
+                    .map_err(|_| Error::InvalidValue(format!("integer {} out of range for i32", i)))
+                    .and_then(|v| visitor.visit_i32(v))
+            }
             _ => Err(Error::TypeMismatch {
                 expected: "integer".into(),
                 found: format!("{:?}", self.term),
@@ -158,7 +176,7 @@ impl<'de> SerdeDeserializer<'de> for &mut Deserializer<'de> {
 
     fn deserialize_i64<V: Visitor<'de>>(self, visitor: V) -> Result<V::Value> {
         match self.term {
-            OwnedTerm::Integer(i) => visitor.visit_i64(*i),
+            OwnedTerm::Integer(_) | OwnedTerm::BigInt(_) => visitor.visit_i64(self.wire_integer()?),
             _ => Err(Error::TypeMismatch {
                 expected: "integer".into(),
                 found: format!("{:?}", self.term),
@@ -168,9 +186,12 @@ impl<'de> SerdeDeserializer<'de> for &mut Deserializer<'de> {
 
     fn deserialize_u8<V: Visitor<'de>>(self, visitor: V) -> Result<V::Value> {
         match self.term {
-            OwnedTerm::Integer(i) => u8::try_from(*i)
-                .map_err(|_| Error::InvalidValue(format!("integer {} out of range for u8", i)))
-                .and_then(|v| visitor.visit_u8(v)),
+            OwnedTerm::Integer(_) | OwnedTerm::BigInt(_) => {
+                let i = self.wire_integer()?;
+                u8::try_from(i)
+                    .map_err(|_| Error::InvalidValue(format!("integer {} out of range for u8", i)))
+                    .and_then(|v| visitor.visit_u8(v))
+            }
             _ => Err(Error::TypeMismatch {
                 expected: "integer".into(),
                 found: format!("{:?}", self.term),
@@ -180,9 +201,12 @@ impl<'de> SerdeDeserializer<'de> for &mut Deserializer<'de> {
 
     fn deserialize_u16<V: Visitor<'de>>(self, visitor: V) -> Result<V::Value> {
         match self.term {
-            OwnedTerm::Integer(i) => u16::try_from(*i)
-                .map_err(|_| Error::InvalidValue(format!("integer {} out of range for u16", i)))
-                .and_then(|v| visitor.visit_u16(v)),
+            OwnedTerm::Integer(_) | OwnedTerm::BigInt(_) => {
+                let i = self.wire_integer()?;
+                u16::try_from(i)
+                    .map_err(|_| Error::InvalidValue(format!("integer {} out of range for u16", i)))
+                    .and_then(|v| visitor.visit_u16(v))
+            }
             _ => Err(Error::TypeMismatch {
                 expected: "integer".into(),
                 found: format!("{:?}", self.term),
@@ -192,9 +216,12 @@ impl<'de> SerdeDeserializer<'de> for &mut Deserializer<'de> {
 
     fn deserialize_u32<V: Visitor<'de>>(self, visitor: V) -> Result<V::Value> {
         match self.term {
-            OwnedTerm::Integer(i) => u32::try_from(*i)
-                .map_err(|_| Error::InvalidValue(format!("integer {} out of range for u32", i)))
-                .and_then(|v| visitor.visit_u32(v)),
+            OwnedTerm::Integer(_) | OwnedTerm::BigInt(_) => {
+                let i = self.wire_integer()?;
+                u32::try_from(i)
+                    .map_err(|_| Error::InvalidValue(format!("integer {} out of range for u32", i)))
+                    .and_then(|v| visitor.visit_u32(v))
+            }
             _ => Err(Error::TypeMismatch {
                 expected: "integer".into(),
                 found: format!("{:?}", self.term),
@@ -243,6 +270,17 @@ impl<'de> SerdeDeserializer<'de> for &mut Deserializer<'de> {
     fn deserialize_char<V: Visitor<'de>>(self, visitor: V) -> Result<V::Value> {
         match self.term {
             OwnedTerm::String(s) => {
+                let mut chars = s.chars();
+                if let Some(c) = chars.next()
+                    && chars.next().is_none()
+                {
+                    return visitor.visit_char(c);
+                }
+                Err(Error::InvalidValue("expected single char".into()))
+            }
+            // a char is serialized as a string, which the encoder writes as a binary
+            OwnedTerm::Binary(b) => {
+                let s = str::from_utf8(b).map_err(|e| Error::InvalidValue(e.to_string()))?;
                 let mut chars = s.chars();
                 if let Some(c) = chars.next()
                     && chars.next().is_none()
